@@ -12,6 +12,11 @@ R36.1  taint: every attribute of a parsed finding (values read from `attributes[
 R36.2  no record is dropped: between `contentHandler.errors` and the loops that emit the per-file
        and index rows there is no `continue`/filter on a record, and the "source file cannot be read"
        paths still leave the finding in the index.
+R36.3  record-list provenance: the loop in main() that groups findings by file iterates the complete list
+       built by the SAX handler: its iterable is `contentHandler.errors` or a name every assignment of which is
+       that list or an order-only derivation (sorted/list/reversed/tuple, or a helper of the script that returns
+       its argument / appends every element unconditionally); the handler appends a record for every <error>
+       element unconditionally; `files[...]['errors']` lists are only appended to.
 """
 import ast
 import os
@@ -282,6 +287,7 @@ def run(ctx):
     except SyntaxError as e:
         raise AnalysisBroken('cannot parse %s: %s' % (SCRIPT, e))
     ctx.rule('R36.1', 'attributes of a finding reach HTML sinks only through html_escape()/int()')
+    ctx.rule('R36.3', 'the grouping loop iterates the complete list of parsed findings')
     ctx.rule('R36.2', 'no finding is filtered out between the SAX handler and the index / per-file pages')
     T = Taint(tree)
     flows = T.run()
@@ -348,3 +354,115 @@ def run(ctx):
                     ctx.ob('R36.2', 'unreadable-source:%d' % h.lineno if False else 'unreadable-source:%s' % ('decode' if 'decode' in txt.lower() else 'notfound'),
                            not removes, 'the handler for an unreadable source file keeps the file\'s findings for the index' if not removes else
                            'the handler for an unreadable source file removes records (line %d)' % removes[0].lineno, '%s:%d' % (SCRIPT, h.lineno))
+
+    # ---- R36.3 provenance of the record list ----------------------------------------------------------------------
+    ORDER_ONLY = {'sorted', 'list', 'reversed', 'tuple'}
+
+    def is_source(e):
+        return isinstance(e, ast.Attribute) and e.attr == 'errors' and isinstance(e.value, ast.Name) and e.value.id == 'contentHandler'
+
+    def helper_keeps_all(fn, pname):
+        """True iff every return of fn yields all elements of parameter pname (alias, order-only call, or a list
+        filled by an unconditional append in a loop over the parameter)."""
+        full = {pname}
+        for n in ast.walk(fn):
+            if isinstance(n, ast.For) and isinstance(n.iter, ast.Name) and n.iter.id in full and isinstance(n.target, ast.Name):
+                tv = n.target.id
+                has_skip = any(isinstance(x, (ast.Continue, ast.Break, ast.Return)) for x in ast.walk(n))
+                for st in n.body:
+                    if isinstance(st, ast.Expr) and isinstance(st.value, ast.Call) and isinstance(st.value.func, ast.Attribute) and st.value.func.attr == 'append' \
+                            and isinstance(st.value.func.value, ast.Name) and len(st.value.args) == 1 and isinstance(st.value.args[0], ast.Name) and st.value.args[0].id == tv \
+                            and not has_skip:
+                        full.add(st.value.func.value.id)
+        rets = [n for n in ast.walk(fn) if isinstance(n, ast.Return)]
+        if not rets:
+            return False
+        for r in rets:
+            if not keeps_all(r.value, full, None):
+                return False
+        return True
+
+    def keeps_all(e, full, scope):
+        if e is None:
+            return False
+        if is_source(e):
+            return True
+        if isinstance(e, ast.Name):
+            return e.id in full
+        if isinstance(e, ast.Call) and isinstance(e.func, ast.Name):
+            if e.func.id in ORDER_ONLY and e.args:
+                return keeps_all(e.args[0], full, scope)
+            fn = T.funcs.get(e.func.id)
+            if fn is not None and e.args and fn.args.args:
+                return keeps_all(e.args[0], full, scope) and helper_keeps_all(fn, fn.args.args[0].arg)
+        return False
+
+    # names in main() all of whose assignments keep every record
+    assigns = {}
+    for n in ast.walk(main):
+        if isinstance(n, ast.Assign) and len(n.targets) == 1 and isinstance(n.targets[0], ast.Name):
+            assigns.setdefault(n.targets[0].id, []).append(n)
+    def full_before(line):
+        """names all of whose assignments textually before `line` keep every record (the grouping loop is a
+        direct statement of main(), so later reassignments cannot reach it)"""
+        full = set()
+        changed = True
+        while changed:
+            changed = False
+            for name, asg in assigns.items():
+                asg = [a for a in asg if a.lineno < line]
+                if asg and name not in full and all(keeps_all(a.value, full, main) for a in asg):
+                    full.add(name)
+                    changed = True
+        return full
+    group = []
+    for n in ast.walk(main):
+        if isinstance(n, ast.For):
+            appends = [x for x in ast.walk(n) if isinstance(x, ast.Call) and isinstance(x.func, ast.Attribute) and x.func.attr == 'append' and
+                       isinstance(x.func.value, ast.Subscript) and T.const(x.func.value.slice) == 'errors']
+            if appends:
+                group.append(n)
+    ctx.floor('R36.3 grouping loops (files[..][\'errors\'].append)', len(group), 1)
+    for g in group:
+        it = ast.unparse(g.iter)
+        full = full_before(g.lineno if g in main.body else 10 ** 9)
+        ok = keeps_all(g.iter, full, main)
+        bad = ''
+        if not ok and isinstance(g.iter, ast.Name) and g.iter.id in assigns:
+            bad = '; `%s` is assigned at line(s) %s from an expression that may drop records' % (
+                g.iter.id, ', '.join(str(a.lineno) for a in assigns[g.iter.id] if a.lineno < g.lineno and not keeps_all(a.value, full, main)))
+        ctx.ob('R36.3', 'grouping-iterable', ok, ('the grouping loop iterates %s, the complete list of parsed findings' % it) if ok else
+               ('the grouping loop iterates `%s`, which is not the complete list built by the SAX handler%s' % (it, bad)), '%s:%d' % (SCRIPT, g.lineno))
+    # handler: every <error> element appends one record, unconditionally within the `name == 'error'` arm
+    for hname in ('handleVersion2',):
+        h = T.funcs.get(hname)
+        if h is None:
+            raise AnalysisBroken('%s not found' % hname)
+        arm = None
+        for n in ast.walk(h):
+            if isinstance(n, ast.If) and isinstance(n.test, ast.Compare) and isinstance(n.test.left, ast.Name) and n.test.left.id == 'name' and \
+                    len(n.test.comparators) == 1 and isinstance(n.test.comparators[0], ast.Constant) and n.test.comparators[0].value == 'error':
+                arm = n
+        ok = False
+        if arm is not None:
+            for st in arm.body:     # direct statement of the arm, not nested under another condition
+                if isinstance(st, ast.Expr) and isinstance(st.value, ast.Call) and ast.unparse(st.value.func) == 'self.errors.append':
+                    ok = True
+            if any(isinstance(x, (ast.Return, ast.Continue)) for st in arm.body for x in ast.walk(st)):
+                ok = False
+        ctx.ob('R36.3', 'handler-append:%s' % hname, ok, 'every <error> element appends one record to self.errors unconditionally' if ok else
+               '%s does not append a record for every <error> element (conditional append / early return in the `name == \'error\'` arm)' % hname,
+               '%s:%d' % (SCRIPT, h.lineno))
+    # per-file lists and the handler list are only appended to / read
+    shrink = []
+    for n in ast.walk(T.tree):
+        if isinstance(n, ast.Call) and isinstance(n.func, ast.Attribute) and n.func.attr in ('pop', 'remove', 'clear') and 'errors' in ast.unparse(n.func.value):
+            shrink.append(n.lineno)
+        if isinstance(n, ast.Delete) and 'errors' in ast.unparse(n):
+            shrink.append(n.lineno)
+        if isinstance(n, ast.Assign) and any(isinstance(t, ast.Subscript) and T.const(t.slice) == 'errors' for t in n.targets):
+            shrink.append(n.lineno)
+        if isinstance(n, ast.Assign) and any(isinstance(t, ast.Attribute) and t.attr == 'errors' and ast.unparse(t.value) in ('contentHandler',) for t in n.targets):
+            shrink.append(n.lineno)
+    ctx.ob('R36.3', 'lists-only-grow', not shrink, 'no statement removes from or replaces a list of finding records' if not shrink else
+           'a list of finding records is shrunk or replaced at line(s) %s' % shrink, SCRIPT)
